@@ -138,6 +138,33 @@ func (a *agg) write(tier string, seed uint64, wall float64, nviol int, streams i
 	if len(warn) > 0 {
 		fmt.Printf("vsim: WARNING reach probes stuck at 0: %v\n", warn)
 	}
+	// fault kinds that are generated as script steps are counted where they executed
+	fk := map[string]uint64{}
+	for k, v := range a.faults {
+		fk[k] = v
+	}
+	for _, k := range []string{"invalid_panic", "evict"} {
+		if v := a.probes["fault_step_"+k]; v > 0 {
+			fk[k] = v
+		}
+	}
+	switch a.p.id {
+	case "C09":
+		for _, k := range []string{"invalid_panic", "stall", "evict", "map_order"} {
+			if _, ok := fk[k]; !ok {
+				fk[k] = 0
+			}
+		}
+		if fk["map_order"] == 0 {
+			fk["map_order_note"] = 0 // the current tree has no map range loop: nothing to permute
+		}
+	case "C10":
+		for _, k := range []string{"clock_jump", "zone_change"} {
+			if _, ok := fk[k]; !ok {
+				fk[k] = 0
+			}
+		}
+	}
 	perHour := 0.0
 	if wall > 0 {
 		perHour = float64(a.n) / wall * 3600
@@ -183,4 +210,10 @@ func (a *agg) write(tier string, seed uint64, wall float64, nviol int, streams i
 	if err := os.WriteFile(filepath.Join(root, "evidence", a.p.id+".json"), b, 0644); err != nil {
 		die2("write evidence: %v", err)
 	}
+}
+
+var faultNote = map[string]string{
+	"C09": "invalid_panic = operations with rejected/choking arguments executed and recovered inside scripts; stall = a task frozen at a scheduling point while others run; evict = operations of an evictor task on cold years; map_order = permuted map iterations (0 when the tree has no map range loop)",
+	"C10": "clock_jump / zone_change = the simulated wall clock or time.Local replaced between two lookups of a run; every run additionally starts from a PRNG-chosen clock, zone and per-read tick",
+	"C14": "no environment fault applies (single writer API, no I/O, no clock): 0 by construction; recovered malformed queries are counted under reach_probes.bad_key_recovered",
 }
